@@ -258,6 +258,7 @@ def run(prog: Program, rep: Report, tier: str = "quick") -> None:
     from . import game
 
     game.add_instances(rep, game.c03_job, [(i, tier) for i in range(n)], "R3.5", 30 * n)
+    rep.supersede({"R3.2", "R3.3"}, "R3.5", "scores are ranks negated; omitted ranks are the positions")
     rep.floor("R3.1", 8 * n)
     rep.floor("R3.2", 2 * n)
     rep.floor("R3.3", 2 * n)
